@@ -1,5 +1,26 @@
 """Property -> machinery."""
 PROPS = {
+    "C15": {
+        "x": ["harness.hC15"],
+        "extra": ["harness.pC15.run"],
+        "engines": ["engine-t"],
+        "engine": "engine-x",
+        "level": "other",
+        "explanation": "Engine X: the real build_ops/build_routines_json of the compile command composed with the real "
+                       "read_ops/read_routines of the decompile command over symbolic compiled routine sets (internal "
+                       "offsets with symbolic gaps, symbolic jump flags/targets), every documented argument type and "
+                       "routine type, all paths confirmed within the bounds. End to end (enumerated programs): both "
+                       "commands run as subprocesses, exit status, documented JSON structure, jump numbering, and z3 "
+                       "(Engine T) decides that compile(decompileCLI(compileCLI(p))) behaves like p on all paths.",
+        "technique": "CrossHair+z3 on the real CLI (de)serialisers (numbering lemma, argument and routine types); z3 "
+                     "BMC trace equivalence for the CLI round trip of enumerated programs",
+        "level_text": "Numbering/typing lemmas are solver-decided for all values within the bounds; the end-to-end part "
+                      "is translation validation per generated program.",
+        "level_note": "Trusted: CrossHair, z3, spec/es_sem.py. Settings-file validation messages are outside the claim. "
+                      "Decompiler defects are reported under the C02 input classes.",
+        "assumptions": ["json.dumps/loads between the commands is the identity on the data model used",
+                        "program dimension of the end-to-end part enumerated"],
+    },
     "C05": {
         "x": [],
         "extra": ["harness.pC05.run"],
